@@ -208,6 +208,9 @@ func init() {
 			famHist(c, defaultCfg, 25000*c.Scale, 8, "RcsspprR", true, allButVerrs, "two-handles", func(d *Driver, hc histCase, h *implHist, steps []Step, start Obs) {
 				c13Check(c, hc, steps, start)
 			})
+			famEdgeTwo(c, defaultCfg, allButVerrs, "edge-two-handles", func(d *Driver, hc histCase, h *implHist, steps []Step, start Obs) {
+				c13Check(c, hc, steps, start)
+			})
 		},
 		rule: "generated histories over two live handles (B := A.Parse(ref), other := x.Clone()) followed by setters / SearchParams operations / in-place resolutions on either; after each step every observable of the handle not operated on must be unchanged, and both handles are compared with the value-semantics model",
 	}
@@ -461,6 +464,46 @@ func famEdgeHist(c *Ctx, cfg *Cfg, fields []int, fam string, withSP bool,
 			case 2:
 				hops = append(hops, Op{K: "a", A: "k", B: "v"})
 			}
+		}
+		h, steps, start := c.cmpHist(d, cfg, nil, s, hops, fields, fam, i)
+		if each != nil && h != nil {
+			each(d, histCase{cfg, nil, s, hops, fam, i}, h, steps, start)
+		}
+	})
+}
+
+// famEdgeTwo: two-handle edge histories: start x {clone, resolve "#f", resolve "", resolve "?q"} x
+// every single edge op and every pair of query/fragment-clearing ops, applied to the NEW handle (B)
+// or to the original (A) after the copy.
+func famEdgeTwo(c *Ctx, cfg *Cfg, fields []int, fam string,
+	each func(d *Driver, cs histCase, h *implHist, steps []Step, start Obs)) {
+	ops := allEdgeOps()
+	var clr []edgeOp
+	for _, o := range ops {
+		if o.w >= 7 {
+			clr = append(clr, o)
+		}
+	}
+	mk := []Op{{K: "c", Slot: 0}, {K: "R", A: "#f"}, {K: "R", A: ""}, {K: "R", A: "?q"}}
+	per := len(ops) + len(clr)*len(clr)
+	total := len(edgeStarts) * len(mk) * 2 * per
+	c.Pool.Run(total, func(d *Driver, i int) {
+		k := i % per
+		j := i / per
+		slot := j % 2
+		j /= 2
+		first := mk[j%len(mk)]
+		s := edgeStarts[j/len(mk)]
+		hops := []Op{first}
+		if k < len(ops) {
+			hops = append(hops, Op{K: "s", Slot: slot, W: ops[k].w, A: ops[k].v})
+		} else {
+			k -= len(ops)
+			a, b := clr[k/len(clr)], clr[k%len(clr)]
+			hops = append(hops, Op{K: "s", Slot: slot, W: a.w, A: a.v}, Op{K: "s", Slot: slot, W: b.w, A: b.v})
+		}
+		if i%5 == 0 {
+			hops = append(hops, Op{K: "a", Slot: slot, A: "k", B: "v"})
 		}
 		h, steps, start := c.cmpHist(d, cfg, nil, s, hops, fields, fam, i)
 		if each != nil && h != nil {
